@@ -54,7 +54,7 @@ _hist_prop("C04", ["CC.Props.C04", "CC.Props.NonVacuity"],
 _hist_prop("C05", ["CC.Props.C05", "CC.Props.NonVacuity"],
     "Lean theorems: prune keeps exactly the newest secret of a pruned right and leaves others untouched; every secret of a key refreshed with keep is a current master secret of that right, rights gone from the master key are dropped; without keep exactly the newest secret; a key holding only master secrets cannot open an encapsulation made under removed secrets; over every history, once no attribute carries an identifier a successful update_msk leaves no right involving it (deleted_attribute_leaves_master_key). Correspondence: rekey/prune/delete/update/refresh histories, chain contents and decaps matrices compared")
 _hist_prop("C06", ["CC.Props.C06", "CC.Props.NonVacuity"],
-    "Lean theorems: rekey and prune never change the activation flag of the newest secret; the public key publishes a right only if its newest secret is activated; a deactivated right has no entry in any derived public key; encapsulation fails when a targeted right is unpublished; update_msk sets the flag from the structure; over every history: a disabled identifier stays disabled through every structure edit (no enable operation, identifiers never reissued), a successful update_msk deactivates every right containing it, no later operation re-activates one, so in any world reachable after disable + update encapsulation fails for every target set containing such a right (disabled_never_encryptable). Correspondence: histories with disable followed by update/rekey/prune/mpk re-derivation/serialisation round-trips, encaps ok/err under every public key compared")
+    "Lean theorems: rekey and prune never change the activation flag of the newest secret; the public key publishes a right only if its newest secret is activated; a deactivated right has no entry in any derived public key; encapsulation fails when a targeted right is unpublished; update_msk sets the flag from the structure; over every history: a disabled identifier stays disabled through every structure edit (no enable operation, identifiers never reissued), a successful update_msk deactivates every right containing it, no later operation re-activates one, so in any world reachable after disable + update encapsulation fails for every target set containing such a right (disabled_never_encryptable), while a successful update changes no secret of a right the structure still defines, so keys keep opening what they opened and stay refreshable (update_keeps_defined_rights with C04 / C09). Correspondence: histories with disable followed by update/rekey/prune/mpk re-derivation/serialisation round-trips, encaps ok/err under every public key compared")
 _hist_prop("C09", ["CC.Props.C09", "CC.Props.NonVacuity"],
     "Lean theorems characterising, for all states and arguments, exactly when each structure edit, rekey, update_msk, key generation, encapsulation and refresh fail (iff statements: encaps_ok_iff, refresh_ok_iff); over every history an issued key stays refreshable with either flag. Correspondence: histories with 35% malformed arguments (unknown/duplicate/stale names, same-dimension clauses, rollbacks of the master key); ok/err of every call compared with the model")
 _hist_prop("C10", ["CC.Props.C10"],
